@@ -19,8 +19,9 @@
 //!                                   "model":[diffs],"panic":..,"dump":..}]}
 //! With arg2 = "dump" every step's dump is emitted (used by the C11 multi-process comparison).
 use emmylua_code_analysis::{
-    EmmyLuaAnalysis, Emmyrc, FileId, LuaMemberOwner, LuaSemanticDeclId, LuaType, LuaTypeDeclId,
-    LuaTypeOwner, RenderLevel, SemanticDeclLevel, WorkspaceFolder, file_path_to_uri, humanize_type,
+    EmmyLuaAnalysis, Emmyrc, FileId, LuaMemberOwner, LuaOperatorMetaMethod, LuaOperatorOwner,
+    LuaSemanticDeclId, LuaType, LuaTypeDeclId, LuaTypeOwner, RenderLevel, SemanticDeclLevel,
+    WorkspaceFolder, file_path_to_uri, humanize_type,
 };
 use emmylua_parser::{LuaTokenKind};
 use std::collections::BTreeMap;
@@ -28,6 +29,31 @@ use std::path::PathBuf;
 use std::sync::Arc;
 use tokio_util::sync::CancellationToken;
 use vh_common::{Value, emit, guarded, json, quiet_panics, read_cases};
+
+const META_METHODS: &[(&str, LuaOperatorMetaMethod)] = &[
+    ("add", LuaOperatorMetaMethod::Add),
+    ("sub", LuaOperatorMetaMethod::Sub),
+    ("mul", LuaOperatorMetaMethod::Mul),
+    ("div", LuaOperatorMetaMethod::Div),
+    ("mod", LuaOperatorMetaMethod::Mod),
+    ("pow", LuaOperatorMetaMethod::Pow),
+    ("unm", LuaOperatorMetaMethod::Unm),
+    ("idiv", LuaOperatorMetaMethod::IDiv),
+    ("band", LuaOperatorMetaMethod::BAnd),
+    ("bor", LuaOperatorMetaMethod::BOr),
+    ("bxor", LuaOperatorMetaMethod::BXor),
+    ("bnot", LuaOperatorMetaMethod::BNot),
+    ("shl", LuaOperatorMetaMethod::Shl),
+    ("shr", LuaOperatorMetaMethod::Shr),
+    ("concat", LuaOperatorMetaMethod::Concat),
+    ("len", LuaOperatorMetaMethod::Len),
+    ("eq", LuaOperatorMetaMethod::Eq),
+    ("lt", LuaOperatorMetaMethod::Lt),
+    ("le", LuaOperatorMetaMethod::Le),
+    ("index", LuaOperatorMetaMethod::Index),
+    ("call", LuaOperatorMetaMethod::Call),
+    ("pairs", LuaOperatorMetaMethod::Pairs),
+];
 
 fn label(a: &EmmyLuaAnalysis, fid: FileId) -> String {
     let vfs = a.compilation.get_db().get_vfs();
@@ -189,6 +215,37 @@ fn dump_with(a: &EmmyLuaAnalysis, requires: &[String], probe: Option<(&str, &[St
             t.insert("alias".into(), json!(decl.get_alias_ref().map(|x| ty(a, x))));
         }
         t.insert("members".into(), members(a, &LuaMemberOwner::Type(id.clone())));
+        // generic header: parameter names with constraint / default, and the rendered head of the type
+        let gp: Vec<Value> = db
+            .get_type_index()
+            .get_generic_params(&id)
+            .map(|ps| {
+                ps.iter()
+                    .map(|p| json!([p.name.to_string(), p.constraint.as_ref().map(|c| ty(a, c)), p.default.as_ref().map(|c| ty(a, c)), p.is_const]))
+                    .collect()
+            })
+            .unwrap_or_default();
+        t.insert("generic".into(), json!(gp));
+        t.insert("render".into(), json!(humanize_type(db, &LuaType::Def(id.clone()), RenderLevel::Detailed)));
+        // operators per meta method IN THE ORDER OF THE INDEX (the first applicable one decides an expression)
+        let mut ops = serde_json::Map::new();
+        for (name, mm) in META_METHODS {
+            if let Some(ids) = db.get_operator_index().get_operators(&LuaOperatorOwner::Type(id.clone()), *mm) {
+                let v: Vec<Value> = ids
+                    .iter()
+                    .map(|oid| match db.get_operator_index().get_operator(oid) {
+                        Some(op) => json!([
+                            format!("{}@{}", label(a, op.get_file_id()), rng(op.get_range())),
+                            ty(a, &op.get_operator_func(db)),
+                            op.get_result(db).ok().map(|r| ty(a, &r))
+                        ]),
+                        None => json!(["?dangling-operator-id"]),
+                    })
+                    .collect();
+                ops.insert(name.to_string(), json!(v));
+            }
+        }
+        t.insert("operators".into(), Value::Object(ops));
         let mut trefs: Vec<String> = db
             .get_reference_index()
             .get_type_references(&id)
@@ -497,6 +554,31 @@ fn model_diff(model: &Value, d: &Value, out: &mut Vec<Value>) {
             let got = d["types"].get(cls).map(|t| t["supers"].clone()).unwrap_or(json!([]));
             if &got != want {
                 out.push(json!([format!("supers/{cls}"), want, got]));
+            }
+        }
+    }
+    if let Some(m) = model.get("gen").and_then(|x| x.as_object()) {
+        // generic parameter names of every type
+        for (cls, want) in m {
+            let got: Vec<Value> = d["types"].get(cls).and_then(|t| t["generic"].as_array()).map(|v| v.iter().map(|p| p[0].clone()).collect()).unwrap_or_default();
+            if &json!(got) != want {
+                out.push(json!([format!("gen/{cls}"), want, got]));
+            }
+        }
+    }
+    if let Some(m) = model.get("ops").and_then(|x| x.as_object()) {
+        // operators per type and meta method in index order: [[result, path], ...]
+        for (cls, want) in m {
+            for (mm, w) in want.as_object().into_iter().flatten() {
+                let got: Vec<Value> = d["types"]
+                    .get(cls)
+                    .and_then(|t| t["operators"].get(mm))
+                    .and_then(|v| v.as_array())
+                    .map(|v| v.iter().map(|o| json!([o[2], strip(o[0].as_str().unwrap_or(""))])).collect())
+                    .unwrap_or_default();
+                if &json!(got) != w {
+                    out.push(json!([format!("ops/{cls}/{mm}"), w, got]));
+                }
             }
         }
     }
